@@ -378,7 +378,8 @@ func c16LibGoroutines() []c16G {
 // call: every one of them is a background flusher parked in its select.
 func c16Quiescent() bool {
 	for _, g := range c16LibGoroutines() {
-		if g.state == "select" && strings.Contains(g.text, "backgroundFlush.func1") &&
+		// (the flusher closure's symbol varies with inlining: …backgroundFlush.func1 / …backgroundFlush.1)
+		if g.state == "select" && strings.Contains(g.text, ").backgroundFlush") &&
 			!strings.Contains(g.text, "(*PeriodicalExecutor).Flush") && !strings.Contains(g.text, "executeTasks") {
 			continue
 		}
